@@ -623,9 +623,17 @@ impl Client {
             .writer
             .lock()
             .map_err(|_| poisoned_lock_error("client writer"))?;
-        write_message(&mut *writer, msg)?;
-        writer.flush()?;
-        Ok(())
+        let written = write_message(&mut *writer, msg)
+            .and_then(|()| writer.flush().map_err(RepeError::from));
+        if written.is_err() {
+            // A failed write (a write timeout fires mid-frame, say) may have put
+            // part of the frame on the wire and left the rest in the buffer. No
+            // further request may follow a torn frame, so the connection is shut
+            // down: later writes fail instead of landing behind it, and the
+            // response loop sees the close and fails the pending calls.
+            let _ = writer.get_ref().shutdown(Shutdown::Both);
+        }
+        written
     }
 
     fn remove_pending(&self, id: u64) {
